@@ -10,7 +10,8 @@ never interleave.  One call = one record (C06 `line_records_atomic`: label and l
 
 * who can be inside a call (`emits`): a worker while connecting (transport diagnostics), in its read loop, or flushing
   after it has recorded its result; the signals thread while it prints its notice, a listing (with thd_mutex held or
-  after releasing it), the canceled count (with threadcount_mutex held) or the abort message.  Not a worker that holds
+  after releasing it, up to the moment it is back in sigwait), the canceled count (with threadcount_mutex held) or the
+  abort message.  Not a worker that holds
   thd_mutex, not a canceled worker closing its descriptors, not a worker past its flush (teardown, epilogue, done);
 * a thread inside a call performs no protocol operation; `exit()` by the signals thread stops everything wherever the
   others are — that is the abort.
@@ -41,8 +42,11 @@ def emitW : WP → Bool
   | .connecting | .reading | .flushed => true
   | _ => false
 
+/-- (`waiting`: the tail of a handler — a listing printed from a snapshot writes the end of its last line after its last
+    protocol operation, when the model already has the thread on its way back to sigwait; it cannot take the next
+    signal before that call has ended, because a thread inside a call performs no protocol operation) -/
 def emitS : SPC → Bool
-  | .intT2 | .listing _ | .printing _ | .cancUnlock | .exiting => true
+  | .intT2 | .listing _ | .printing _ | .cancUnlock | .exiting | .waiting => true
   | _ => false
 
 /-- the worker has completed: its result is recorded and its buffers are flushed -/
